@@ -28,7 +28,7 @@ from pathlib import Path
 from typing import Any, Callable, Iterable, Optional
 
 VERIF = Path(__file__).resolve().parent.parent
-LEAN = VERIF / 'lean'
+LEAN = Path(os.environ.get('VERIF_LEAN_DIR') or (VERIF / 'lean'))     # seed trials use a private copy (tools/verify_seed.py)
 REPO = Path(os.environ.get('VERIF_REPO', '/repo'))
 EVIDENCE = Path(os.environ.get('VERIF_EVIDENCE_DIR') or (VERIF / 'evidence'))   # (seed trials write elsewhere)
 REPLAYS = VERIF / 'replays'
